@@ -467,6 +467,30 @@ def check(run):
             okc = len(sg) == 3 and sg[0].val == '100' and sg[1].val is wc and sg[2].val is hp
             run.check(okc, 'D4', 'Address.to_cell' if not okc else 'Address.to_cell', f'{sg}', prog.where(prog.method('Address', 'to_cell')))
         run.evaluations += 4
+    # one account in several forms, stored one after the other in the same process: what is written depends on the address given, not on
+    # what was stored before (an encoding kept per `Address` - whose equality ignores the anycast - would repeat the first form)
+    it = Interp(prog)
+    wc = Sym('wc', ty='int', not_none=True, key=('wc',))
+    hp = Sym('hash_part', ty='bytes', n=32, key=('hp',))
+    seq_ok, seq_why = True, []
+    for step, anycast in enumerate((None, (3, 5), None, (30, 0x2AAAAAAA), (3, 6))):
+        addr = it.construct(A, [ListV([wc, hp], tup=True)], {})
+        if anycast:
+            call(it, addr, 'set_anycast', K(anycast[0]), K(anycast[1]))
+        want = '10' + ('0' if not anycast else '1' + format(anycast[0], '05b') + format(anycast[1], f'0{anycast[0]}b'))
+        b = builder(it)
+        try:
+            call(it, b, 'store_address', addr)
+            segs = segs_of(b)
+            head = ''.join(s_.val for s_ in segs if s_.kind == 'k')
+        except RaiseEx as e:
+            head = f'raises {e}'
+        if head != want:
+            seq_ok = False
+            seq_why.append(f'store #{step + 1} ({"plain" if not anycast else "anycast " + str(anycast)}) wrote header {head!r}, expected {want!r}')
+        run.evaluations += 1
+    run.check(seq_ok, 'D4', 'Builder.store_address[same account, several forms in sequence]' if not seq_ok else 'addr_std-write[history: plain, anycast, plain, anycast, anycast]',
+              '; '.join(seq_why) or 'five stores of one account in different forms, each written as given', wa)
     # friendly-string input to store_address goes through Address(...)
     it = Interp(prog)
     b = builder(it)
